@@ -1,6 +1,7 @@
 package main
 
 import (
+	"math/big"
 	"fmt"
 	"regexp"
 	"strings"
@@ -93,6 +94,29 @@ func checkSpec(ctx *Ctx, id string) {
 					for _, k := range []string{"1", "2"} {
 						extra = append(extra, base+strings.ReplaceAll(strings.ReplaceAll(tpl, "%k", k), "%K", k))
 					}
+				}
+			}
+		}
+		// word-boundary family: one base, one position, the numbers 2^k-1, 2^k, 2^k+1 for a
+		// seed-dependent half of the usual widths (8..64 bits): a single mishandled value meets
+		// its two neighbours and small numbers at the same position
+		if sh := numShapes[name]; sh != nil {
+			ar := sh.Arities[r.Intn(len(sh.Arities))]
+			pos := r.Intn(ar)
+			if name == "github" && pos == 0 && ar > 1 {
+				pos = 1
+			}
+			for ki, k := range []uint{8, 15, 16, 20, 21, 24, 31, 32, 53, 63, 64} {
+				if (ki+int(ctx.Seed))%2 == 0 && ctx.Quick {
+					continue
+				}
+				for d := int64(-1); d <= 1; d++ {
+					parts := make([]string, ar)
+					for i := range parts {
+						parts[i] = "1"
+					}
+					parts[pos] = new(big.Int).Add(new(big.Int).Lsh(big.NewInt(1), k), big.NewInt(d)).String()
+					extra = append([]string{sh.Prefix + strings.Join(parts, ".")}, extra...)
 				}
 			}
 		}
